@@ -42,7 +42,7 @@ deriving DecidableEq, Repr
 /-- rejections made by the scheduler itself -/
 inductive Err
   | runtime   -- call out of ask→tell / ask_dqd→tell_dqd order
-  | value     -- `_check_length`: a per-row array whose length is not that of the batch
+  | value     -- a malformed argument of tell: wrong length (`_check_length`), NaN / inf, wrong inner shape
 deriving DecidableEq, Repr
 
 structure Cfg where
@@ -141,7 +141,9 @@ def tellEvents (dqd : Bool) : Nat → List (List Sol) → List (List Nat) → Li
   | _, _, _ => []
 
 /-- `Scheduler.tell` (`dqd = false`) / `Scheduler.tell_dqd` (`dqd = true`).
-    `badLength`: some per-row argument does not have the length of the batch. -/
+    `badLength`: some argument is rejected by validation — wrong length (`_check_length`), or right
+    length but non-finite / wrong inner shape (the Jacobian check of `tell_dqd`, the archive's own
+    validation of a batch): ValueError before any row is inserted or any emitter told. -/
 def doTell (cfg : Cfg) (dqd : Bool) (badLength : Bool) (s : St) : St × Out :=
   if s.phase ≠ (if dqd then Phase.askDqd else Phase.ask) then (s, .error .runtime)
   else
@@ -164,7 +166,7 @@ inductive Op
   | askDqd (ns : List Nat)
   | tell
   | tellDqd
-  | tellBad       -- tell with a wrong-length array
+  | tellBad       -- tell with a malformed (wrong-length, non-finite, mis-shaped) argument
   | tellDqdBad
 deriving DecidableEq, Repr
 
